@@ -142,7 +142,7 @@ fn c16_top_table_flush() {
 // @cost 30
 // @timeout 600
 // @needs FM
-// @desc the whole body of flush_meta (lock and the two flush helpers shimmed; the mapping flush reports "not done" a symbolic number of times): every pass flushes the refcounts BEFORE the mappings; need_flush is cleared exactly once, after a pass in which the mapping flush reported that nothing is left, and never before; it returns Ok
+// @desc the whole body of flush_meta (lock and the two flush helpers shimmed; the mapping flush reports "not done" a symbolic number of times): every pass flushes the refcounts BEFORE the mappings; need_flush is cleared exactly once, after a pass in which the mapping flush reported that nothing is left, and never before (every helper call of every pass still sees the flag set); it returns Ok
 // @bounds 0..=2 unfinished passes before the final one
 // @funcs Qcow2Dev::flush_meta (whole body)
 // @stub alloc::fmt::format -> String::new()
@@ -165,6 +165,9 @@ fn c18_flush_meta_driver() {
         if k <= passes {
             assert!(env.get_rec(2 * k).kind == K_FLUSH_REFCOUNT);
             assert!(env.get_rec(2 * k + 1).kind == K_FLUSH_MAPPING);
+            // while passes are still running the flag has not been cleared (a failure in a later
+            // pass must leave it set)
+            assert!(env.get_rec(2 * k).flags == 1 && env.get_rec(2 * k + 1).flags == 1);
         }
         k += 1;
     }
